@@ -385,12 +385,27 @@ func genC15Alpha(r *Rng, tier string) (*Scenario, []Op, []Op) {
 			}
 		}
 		sc.Tasks = nil
+		dyn := r.Chance(40)
 		for i := 0; i < 140; i++ {
 			o := a
 			if i%3 == 2 {
 				o = b
 			}
+			if dyn && i%3 != 2 {
+				// every caller passes a view model of its own struct type: 90-odd distinct types in one burst
+				o = Op{Kind: Pick(r, []string{"evalstr", "evalstr", "string"}), Src: "<p>{{ u.name }}</p>", Name: "dynpage",
+					Data: &Val{T: "map", K: []string{"u"}, V: []Val{{T: "dyn", I: int64(i)}}}}
+				if o.Kind == "string" {
+					o.Src = ""
+				}
+			}
 			sc.Tasks = append(sc.Tasks, []Op{o})
+		}
+		if dyn {
+			// ... after the process has already seen some (setup)
+			for i := 0; i < 60; i++ {
+				sc.Setup = append(sc.Setup, Op{Kind: "evalstr", Src: "{{ u.name }}", Data: &Val{T: "map", K: []string{"u"}, V: []Val{{T: "dyn", I: int64(1000 + i)}}}})
+			}
 		}
 		sc.Quantum = -int64(Pick(r, []int{10, 40, 160})) // negative: slices per call; fixed once the call's length is known
 	case c < 6:
